@@ -63,7 +63,7 @@ def main():
     if tier == 'thorough':
         # stability margin: re-run every unit with the resource limit halved
         with cf.ThreadPoolExecutor(max_workers=4) as ex:
-            futs = [ex.submit(vrun.run_unit, d, 5, False) for d in unit_dirs]
+            futs = [ex.submit(vrun.run_unit, d, 50, False) for d in unit_dirs]
             half = [f.result() for f in futs]
     else:
         half = []
